@@ -424,6 +424,9 @@ def run(ctx):
     # one hand-written program of ~180 idiomatic expression statements (struct values through ?: , and =, varargs of every class, short-circuit side
     # effects, bit-field arithmetic, pointer walks, conversions, VLAs, compound literals in loops): the printed results must equal gcc == clang
     progs.append((open(os.path.join(core.VERIF, 'rt', 'idioms_exec.c')).read(), {'hand-written-idioms'}, 'idiom-exec'))
+    progs.append((open(os.path.join(core.VERIF, 'rt', 'idioms_exec2.c')).read(), {'hand-written-idioms-2'}, 'idiom-exec'))
+    progs.append((open(os.path.join(core.VERIF, 'rt', 'idioms_exec3.c')).read(), {'hand-written-idioms-3'}, 'idiom-exec'))
+    progs.append((open(os.path.join(core.VERIF, 'rt', 'idioms_exec4.c')).read(), {'hand-written-idioms-4'}, 'idiom-exec'))
     ctx.count('programs', n)
     results = core.pmap(run_case, [(i, cc, work, p[0]) for i, p in enumerate(progs)], chunksize=8)
     for idx, verdict, r in results:
